@@ -1,1 +1,631 @@
-//! Reference model of cp/xcp mapping semantics (pure functions over snapshots).
+//! Reference model of cp/xcp mapping semantics: pure functions over directory snapshots.
+//! Written from the property statements and GNU cp's mapping rule, not from xcp's code.
+
+use crate::sandbox::{Meta, Snap, K};
+use crate::util::*;
+use serde::{Deserialize, Serialize};
+use std::collections::{BTreeMap, BTreeSet};
+
+#[derive(Clone, Debug, Default, Serialize, Deserialize)]
+pub struct Inv {
+    /// source arguments exactly as given on the command line (relative to the sandbox root = cwd, or absolute)
+    #[serde(with = "bser_vec")]
+    pub sources: Vec<Vec<u8>>,
+    #[serde(with = "bser")]
+    pub dest: Vec<u8>,
+    pub recursive: bool,
+    pub no_target_dir: bool,
+    /// destination given with --target-directory
+    pub target_dir_opt: bool,
+    pub glob: bool,
+    pub deref: bool,
+    pub no_clobber: bool,
+    pub no_perms: bool,
+    pub no_timestamps: bool,
+    pub parblock: bool,
+    pub workers: u8,
+    pub block: Option<u64>,
+    pub no_progress: bool,
+    pub gitignore: bool,
+    pub fsync: bool,
+    pub ownership: bool,
+    /// "", "none", "auto", "numbered"
+    pub backup: String,
+    /// "", "auto", "never", "always"
+    pub reflink: String,
+    pub force: bool,
+}
+
+impl Inv {
+    pub fn driver(&self) -> &'static str {
+        if self.parblock {
+            "parblock"
+        } else {
+            "parfile"
+        }
+    }
+    pub fn argv(&self) -> Vec<Vec<u8>> {
+        let mut a: Vec<Vec<u8>> = vec![];
+        let mut push = |s: &str| a.push(s.as_bytes().to_vec());
+        push("--driver");
+        push(self.driver());
+        if self.workers != 4 {
+            push("--workers");
+            push(&self.workers.to_string());
+        }
+        if let Some(b) = self.block {
+            push("--block-size");
+            push(&b.to_string());
+        }
+        if self.recursive {
+            push("-r");
+        }
+        if self.no_target_dir {
+            push("-T");
+        }
+        if self.glob {
+            push("--glob");
+        }
+        if self.deref {
+            push("-L");
+        }
+        if self.no_clobber {
+            push("-n");
+        }
+        if self.force {
+            push("-f");
+        }
+        if self.no_perms {
+            push("--no-perms");
+        }
+        if self.no_timestamps {
+            push("--no-timestamps");
+        }
+        if self.no_progress {
+            push("--no-progress");
+        }
+        if self.gitignore {
+            push("--gitignore");
+        }
+        if self.fsync {
+            push("--fsync");
+        }
+        if self.ownership {
+            push("--ownership");
+        }
+        if !self.backup.is_empty() {
+            push(&format!("--backup={}", self.backup));
+        }
+        if !self.reflink.is_empty() {
+            push(&format!("--reflink={}", self.reflink));
+        }
+        if self.target_dir_opt {
+            push("--target-directory");
+            a.push(self.dest.clone());
+            for s in &self.sources {
+                a.push(s.clone());
+            }
+        } else {
+            for s in &self.sources {
+                a.push(s.clone());
+            }
+            a.push(self.dest.clone());
+        }
+        a
+    }
+    pub fn argv_s(&self) -> Vec<String> {
+        self.argv().iter().map(|a| esc(a)).collect()
+    }
+}
+
+/// Make a command-line path relative to the sandbox root (lexically). None if it escapes the root.
+pub fn rel_to_root(root: &[u8], given: &[u8]) -> Option<Vec<u8>> {
+    let abs = lex_norm(root, given);
+    if abs == root {
+        return Some(vec![]);
+    }
+    if abs.starts_with(root) && abs.get(root.len()) == Some(&b'/') {
+        Some(abs[root.len() + 1..].to_vec())
+    } else {
+        None
+    }
+}
+
+#[derive(Debug, Clone, PartialEq)]
+pub enum Res {
+    Found(Vec<u8>),
+    Missing,
+    Loop,
+    Outside,
+}
+
+/// Resolve `rel` (relative to root) through symlinks recorded in the snapshot.
+pub fn resolve(snap: &Snap, root: &[u8], rel: &[u8], follow_last: bool) -> Res {
+    fn go(snap: &Snap, root: &[u8], rel: &[u8], follow_last: bool, depth: &mut u32) -> Res {
+        let comps: Vec<&[u8]> = rel.split(|c| *c == b'/').filter(|c| !c.is_empty() && *c != b".").collect();
+        let mut cur: Vec<u8> = vec![];
+        for (i, c) in comps.iter().enumerate() {
+            if *c == b".." {
+                cur = parent(&cur).to_vec();
+                continue;
+            }
+            let next = join(&cur, c);
+            let m = match snap.get(&next) {
+                Some(m) => m,
+                None => return Res::Missing,
+            };
+            let last = i + 1 == comps.len();
+            if m.kind == K::L && (!last || follow_last) {
+                *depth += 1;
+                if *depth > 40 {
+                    return Res::Loop;
+                }
+                let t = m.link_bytes().unwrap_or_default();
+                let trel = if t.first() == Some(&b'/') {
+                    match rel_to_root(root, &t) {
+                        Some(r) => r,
+                        None => return Res::Outside,
+                    }
+                } else {
+                    // relative to the link's directory; lexical join then re-resolve
+                    let mut base = cur.clone();
+                    let mut out: Vec<u8> = vec![];
+                    // keep ".." semantic: resolve step by step
+                    for tc in t.split(|c| *c == b'/') {
+                        if tc.is_empty() || tc == b"." {
+                            continue;
+                        }
+                        if tc == b".." {
+                            if out.is_empty() {
+                                if base.is_empty() {
+                                    return Res::Outside;
+                                }
+                                base = parent(&base).to_vec();
+                            } else {
+                                // cannot lexically pop a possibly-symlink component safely; resolve prefix first
+                                let pre = join(&base, &out);
+                                match go(snap, root, &pre, true, depth) {
+                                    Res::Found(p) => {
+                                        base = parent(&p).to_vec();
+                                        out.clear();
+                                    }
+                                    other => return other,
+                                }
+                            }
+                        } else {
+                            out = join(&out, tc);
+                        }
+                    }
+                    join(&base, &out)
+                };
+                // append the remaining components
+                let mut rest = trel;
+                for r in &comps[i + 1..] {
+                    rest = join(&rest, r);
+                }
+                // careful: remaining ".." must apply to the resolved target, handled by recursion
+                return go(snap, root, &rest, follow_last, depth);
+            }
+            if !last && m.kind != K::D {
+                return Res::Missing; // ENOTDIR
+            }
+            cur = next;
+        }
+        if cur.is_empty() || snap.contains_key(&cur) {
+            Res::Found(cur)
+        } else {
+            Res::Missing
+        }
+    }
+    let mut d = 0;
+    go(snap, root, rel, follow_last, &mut d)
+}
+
+pub fn is_dir_following(snap: &Snap, root: &[u8], rel: &[u8]) -> bool {
+    match resolve(snap, root, rel, true) {
+        Res::Found(p) => snap.get(&p).map(|m| m.kind == K::D).unwrap_or(false),
+        _ => false,
+    }
+}
+
+/// children (direct) of directory `dir` in the snapshot
+pub fn children<'a>(snap: &'a Snap, dir: &[u8]) -> Vec<&'a Vec<u8>> {
+    let mut pre = dir.to_vec();
+    if !pre.is_empty() {
+        pre.push(b'/');
+    }
+    snap.range(pre.clone()..)
+        .take_while(|(k, _)| k.starts_with(&pre))
+        .filter(|(k, _)| k.len() > pre.len() && !k[pre.len()..].contains(&b'/'))
+        .map(|(k, _)| k)
+        .collect()
+}
+
+/// all entries at or below `top` (no link following)
+pub fn subtree<'a>(snap: &'a Snap, top: &[u8]) -> Vec<&'a Vec<u8>> {
+    let mut pre = top.to_vec();
+    pre.push(b'/');
+    let mut v: Vec<&Vec<u8>> = vec![];
+    if let Some((k, _)) = snap.get_key_value(top) {
+        v.push(k);
+    }
+    for (k, _) in snap.range(pre.clone()..).take_while(|(k, _)| k.starts_with(&pre)) {
+        v.push(k);
+    }
+    v
+}
+
+/// glob-crate-like matching of one path component: `*` any run (also leading dots), `?` one char.
+pub fn comp_match(pat: &[u8], name: &[u8]) -> bool {
+    // operate on chars for '?' (glob matches chars, names here are UTF-8 in glob cases)
+    let p: Vec<char> = String::from_utf8_lossy(pat).chars().collect();
+    let n: Vec<char> = String::from_utf8_lossy(name).chars().collect();
+    fn m(p: &[char], n: &[char]) -> bool {
+        match p.first() {
+            None => n.is_empty(),
+            Some('*') => (0..=n.len()).any(|i| m(&p[1..], &n[i..])),
+            Some('?') => !n.is_empty() && m(&p[1..], &n[1..]),
+            Some(c) => n.first() == Some(c) && m(&p[1..], &n[1..]),
+        }
+    }
+    m(&p, &n)
+}
+
+/// Expand one glob pattern (wildcards only in the last component) against the snapshot.
+pub fn glob_expand(snap: &Snap, root: &[u8], pattern: &[u8]) -> Vec<Vec<u8>> {
+    let has_wild = |s: &[u8]| s.iter().any(|c| *c == b'*' || *c == b'?');
+    if !has_wild(pattern) {
+        // literal: exists (following links like glob's metadata check does not; glob uses lstat-ish existence)
+        return match rel_to_root(root, pattern) {
+            Some(r) if snap.contains_key(&r) => vec![pattern.to_vec()],
+            _ => vec![],
+        };
+    }
+    let dir = parent(pattern);
+    let last = basename(pattern);
+    let dir_rel = match rel_to_root(root, if dir.is_empty() { b"." } else { dir }) {
+        Some(r) => r,
+        None => return vec![],
+    };
+    let dir_real = match resolve(snap, root, &dir_rel, true) {
+        Res::Found(p) => p,
+        _ => return vec![],
+    };
+    let mut out = vec![];
+    for ch in children(snap, &dir_real) {
+        let name = basename(ch);
+        if comp_match(last, name) {
+            out.push(join(dir, name));
+        }
+    }
+    out.sort();
+    out
+}
+
+#[derive(Clone, Debug, PartialEq, Serialize)]
+pub struct Mapped {
+    #[serde(with = "bser")]
+    pub src: Vec<u8>,
+    #[serde(with = "bser")]
+    pub dst: Vec<u8>,
+    pub kind: K,
+    /// the source argument index this entry belongs to
+    pub arg: usize,
+    /// true for the top entry of a source argument
+    pub top: bool,
+}
+
+#[derive(Clone, Debug, PartialEq)]
+pub enum Plan {
+    /// invocation must be rejected: exit != 0 and nothing changes
+    Reject(String),
+    /// with --dereference: a link cannot be resolved => exit != 0 (destination state unspecified)
+    MustFail(String),
+    /// the model does not cover this shape (should not be generated)
+    Unmodelled(String),
+    Copy(Vec<Mapped>),
+}
+
+/// cp's mapping rule applied to the pre-state. `root` is the absolute sandbox root.
+pub fn plan(pre: &Snap, root: &[u8], inv: &Inv) -> Plan {
+    let d_rel = match rel_to_root(root, &inv.dest) {
+        Some(r) => r,
+        None => return Plan::Unmodelled("destination outside sandbox".into()),
+    };
+    let mut sources: Vec<Vec<u8>> = vec![];
+    if inv.glob {
+        for pat in &inv.sources {
+            let e = glob_expand(pre, root, pat);
+            if e.is_empty() {
+                return Plan::Unmodelled("glob pattern without matches".into());
+            }
+            sources.extend(e);
+        }
+    } else {
+        sources = inv.sources.clone();
+    }
+    if sources.is_empty() {
+        return Plan::Reject("no sources".into());
+    }
+    let d_is_dir = is_dir_following(pre, root, &d_rel);
+    let d_exists = matches!(resolve(pre, root, &d_rel, true), Res::Found(_));
+    if sources.len() > 1 && !d_is_dir {
+        return Plan::Reject("several sources, destination not a directory".into());
+    }
+    // canonical location of the destination itself
+    let d_real: Vec<u8> = if d_exists {
+        match resolve(pre, root, &d_rel, true) {
+            Res::Found(p) => p,
+            _ => unreachable!(),
+        }
+    } else {
+        // parent must resolve; name is created
+        let par = parent(&d_rel).to_vec();
+        match resolve(pre, root, &par, true) {
+            Res::Found(p) => {
+                // a dangling symlink at the destination path itself: writing goes through it (excluded)
+                if pre.get(&join(&p, basename(&d_rel))).map(|m| m.kind == K::L).unwrap_or(false) {
+                    return Plan::Unmodelled("destination is a dangling symlink".into());
+                }
+                join(&p, basename(&d_rel))
+            }
+            _ => return Plan::Unmodelled("destination parent missing".into()),
+        }
+    };
+    let mut mapped: Vec<Mapped> = vec![];
+    for (ai, s) in sources.iter().enumerate() {
+        let s_rel = match rel_to_root(root, s) {
+            Some(r) => r,
+            None => return Plan::Unmodelled("source outside sandbox".into()),
+        };
+        // the source argument itself is looked at without following a final link (cp -R semantics),
+        // but intermediate components are followed
+        let s_real = {
+            let par = parent(&s_rel).to_vec();
+            match resolve(pre, root, &par, true) {
+                Res::Found(p) => join(&p, basename(&s_rel)),
+                _ => return Plan::Reject(format!("source {} missing", esc(s))),
+            }
+        };
+        let sm = match pre.get(&s_real) {
+            Some(m) => m,
+            None => return Plan::Reject(format!("source {} missing", esc(s))),
+        };
+        let s_points_to_dir = is_dir_following(pre, root, &s_real);
+        if sm.kind == K::L && !inv.deref {
+            // existence is judged following the link by xcp; a dangling link source is "missing"
+            if !matches!(resolve(pre, root, &s_real, true), Res::Found(_)) {
+                return Plan::Reject("dangling symlink as a source".into());
+            }
+        }
+        if s_points_to_dir && !inv.recursive {
+            return Plan::Reject("directory without --recursive".into());
+        }
+        let b = basename(&s_rel).to_vec();
+        if b.is_empty() || b == b".." || b == b"." {
+            return Plan::Unmodelled("source without a normal last component".into());
+        }
+        let troot = if d_is_dir && !inv.no_target_dir { join(&d_real, &b) } else { d_real.clone() };
+        if sm.kind == K::D && d_exists && !d_is_dir {
+            return Plan::Reject("directory onto an existing non-directory".into());
+        }
+        if inv.deref {
+            // resolved-tree model
+            let mut stack: Vec<Vec<u8>> = vec![];
+            if let Err(p) = deref_walk(pre, root, &s_real, &troot, ai, true, &mut stack, &mut mapped) {
+                return p;
+            }
+        } else {
+            let top_is_real_dir = sm.kind == K::D;
+            if top_is_real_dir {
+                for e in subtree(pre, &s_real) {
+                    let rel = &e[s_real.len()..];
+                    let rel = if rel.first() == Some(&b'/') { &rel[1..] } else { rel };
+                    let dst = join(&troot, rel);
+                    mapped.push(Mapped { src: e.clone(), dst, kind: pre[e].kind, arg: ai, top: rel.is_empty() });
+                }
+            } else {
+                mapped.push(Mapped { src: s_real.clone(), dst: troot.clone(), kind: sm.kind, arg: ai, top: true });
+            }
+        }
+    }
+    // an intermediate destination component that is a symlink makes writes land elsewhere: excluded domain
+    for m in &mapped {
+        let mut p = parent(&m.dst).to_vec();
+        while !p.is_empty() && p.len() >= d_real.len() {
+            if pre.get(&p).map(|x| x.kind == K::L).unwrap_or(false) {
+                return Plan::Unmodelled("symlink inside the destination at a mapped directory position".into());
+            }
+            p = parent(&p).to_vec();
+        }
+    }
+    Plan::Copy(mapped)
+}
+
+fn deref_walk(
+    pre: &Snap,
+    root: &[u8],
+    src: &[u8],
+    dst: &[u8],
+    arg: usize,
+    top: bool,
+    stack: &mut Vec<Vec<u8>>,
+    out: &mut Vec<Mapped>,
+) -> Result<(), Plan> {
+    let real = match resolve(pre, root, src, true) {
+        Res::Found(p) => p,
+        Res::Missing => return Err(Plan::MustFail(format!("dangling link {}", esc(src)))),
+        Res::Loop => return Err(Plan::MustFail(format!("link loop at {}", esc(src)))),
+        Res::Outside => return Err(Plan::Unmodelled("link leaves the sandbox".into())),
+    };
+    let m = &pre[&real];
+    out.push(Mapped { src: real.clone(), dst: dst.to_vec(), kind: m.kind, arg, top });
+    if m.kind == K::D {
+        if stack.contains(&real) {
+            return Err(Plan::MustFail(format!("directory cycle through {}", esc(src))));
+        }
+        stack.push(real.clone());
+        for ch in children(pre, &real) {
+            let name = basename(ch);
+            deref_walk(pre, root, &join(src, name), &join(dst, name), arg, false, stack, out)?;
+        }
+        stack.pop();
+    }
+    Ok(())
+}
+
+#[derive(Clone, Debug, Default)]
+pub struct CmpOpts {
+    /// compare mode bits of mapped regular files with the source's
+    pub check_mode: bool,
+    /// compare mtime of mapped regular files with the source's
+    pub check_mtime: bool,
+    /// names that may additionally appear (e.g. backups): predicate by path
+    pub allow_new: Option<fn(&[u8]) -> bool>,
+    /// destination entries that are mapped onto are allowed to keep pre-existing different kind? never.
+    pub ignore_unmapped_changes_under: Option<Vec<u8>>,
+}
+
+/// Compare the post-state with the model's expectation for a successful run.
+/// Returns a list of human-readable differences (empty = conforms).
+pub fn compare_success(pre: &Snap, post: &Snap, mapped: &[Mapped], o: &CmpOpts) -> Vec<String> {
+    let mut diffs = vec![];
+    let mut targets: BTreeMap<&[u8], &Mapped> = BTreeMap::new();
+    for m in mapped {
+        // later mappings win (same order as the command line) – generators avoid duplicates anyway
+        targets.insert(m.dst.as_slice(), m);
+    }
+    // directories that legitimately change (mtime/nlink/size) because entries are created in them
+    let mut touched_dirs: BTreeSet<Vec<u8>> = BTreeSet::new();
+    for m in mapped {
+        touched_dirs.insert(parent(&m.dst).to_vec());
+        if m.kind == K::D {
+            touched_dirs.insert(m.dst.clone());
+        }
+    }
+    for (dst, m) in &targets {
+        let sm = &pre[&m.src];
+        match post.get(*dst) {
+            None => diffs.push(format!("missing: {} (from {})", esc(dst), esc(&m.src))),
+            Some(pm) => {
+                if pm.kind != sm.kind {
+                    diffs.push(format!("kind: {} is {:?}, source {} is {:?}", esc(dst), pm.kind, esc(&m.src), sm.kind));
+                    continue;
+                }
+                match sm.kind {
+                    K::F => {
+                        if pm.size != sm.size || pm.hash != sm.hash {
+                            diffs.push(format!("content: {} (size {} vs source {})", esc(dst), pm.size, sm.size));
+                        }
+                        if o.check_mode && pm.mode != sm.mode {
+                            diffs.push(format!("mode: {} is {:o}, source {:o}", esc(dst), pm.mode, sm.mode));
+                        }
+                        if o.check_mtime && pm.mtime != sm.mtime {
+                            diffs.push(format!("mtime: {} is {:?}, source {:?}", esc(dst), pm.mtime, sm.mtime));
+                        }
+                    }
+                    K::L => {
+                        if pm.link != sm.link {
+                            diffs.push(format!("link text: {} -> {:?}, source -> {:?}", esc(dst), pm.link, sm.link));
+                        }
+                    }
+                    _ => {}
+                }
+            }
+        }
+    }
+    // everything else unchanged; nothing new
+    for (p, pm) in post {
+        if targets.contains_key(p.as_slice()) {
+            continue;
+        }
+        match pre.get(p) {
+            None => {
+                if let Some(f) = o.allow_new {
+                    if f(p) {
+                        continue;
+                    }
+                }
+                diffs.push(format!("unexpected new entry: {} ({:?})", esc(p), pm.kind));
+            }
+            Some(om) => {
+                if let Some(d) = meta_diff(om, pm, touched_dirs.contains(p)) {
+                    diffs.push(format!("bystander changed: {}: {}", esc(p), d));
+                }
+            }
+        }
+    }
+    for p in pre.keys() {
+        if !post.contains_key(p) && !targets.contains_key(p.as_slice()) {
+            diffs.push(format!("entry removed: {}", esc(p)));
+        }
+    }
+    diffs
+}
+
+/// Field-by-field difference of an entry that must be unchanged. `dir_touched`: a directory in which
+/// entries were legitimately created (mtime, nlink, size may change).
+pub fn meta_diff(a: &Meta, b: &Meta, dir_touched: bool) -> Option<String> {
+    let mut d = vec![];
+    if a.kind != b.kind {
+        d.push(format!("kind {:?}->{:?}", a.kind, b.kind));
+    }
+    if a.mode != b.mode {
+        d.push(format!("mode {:o}->{:o}", a.mode, b.mode));
+    }
+    if a.uid != b.uid || a.gid != b.gid {
+        d.push(format!("owner {}:{}->{}:{}", a.uid, a.gid, b.uid, b.gid));
+    }
+    if a.ino != b.ino {
+        d.push("inode replaced".to_string());
+    }
+    if a.rdev != b.rdev {
+        d.push("rdev".to_string());
+    }
+    if a.link != b.link {
+        d.push(format!("link {:?}->{:?}", a.link, b.link));
+    }
+    if a.hash != b.hash {
+        d.push("content".to_string());
+    }
+    if a.xattrs != b.xattrs {
+        d.push("xattrs".to_string());
+    }
+    if !(a.kind == K::D && dir_touched) {
+        if a.mtime != b.mtime {
+            d.push(format!("mtime {:?}->{:?}", a.mtime, b.mtime));
+        }
+        if a.size != b.size {
+            d.push(format!("size {}->{}", a.size, b.size));
+        }
+        if a.nlink != b.nlink {
+            d.push(format!("nlink {}->{}", a.nlink, b.nlink));
+        }
+    }
+    if d.is_empty() {
+        None
+    } else {
+        Some(d.join(", "))
+    }
+}
+
+/// Whole-snapshot equality modulo nothing (used for "must be rejected with no side effects").
+pub fn snap_diff(pre: &Snap, post: &Snap) -> Vec<String> {
+    let mut diffs = vec![];
+    for (p, a) in pre {
+        match post.get(p) {
+            None => diffs.push(format!("removed: {}", esc(p))),
+            Some(b) => {
+                if let Some(d) = meta_diff(a, b, false) {
+                    diffs.push(format!("changed: {}: {}", esc(p), d));
+                }
+            }
+        }
+    }
+    for p in post.keys() {
+        if !pre.contains_key(p) {
+            diffs.push(format!("created: {}", esc(p)));
+        }
+    }
+    diffs
+}
